@@ -365,9 +365,17 @@ class Escapes:
                 # catalogue
                 if last == 'decode' and isinstance(n.func, ast.Attribute) and not any(
                         (isinstance(a, ast.Constant) and a.value in ('ignore', 'replace', 'backslashreplace', 'surrogateescape')) for a in n.args[1:] + [k.value for k in n.keywords]):
-                    recv = n.func.value
-                    if not (isinstance(recv, ast.Call) and call_attr(recv) == 'encode'):   # x.encode(a).decode(b) transcoding idiom
+                    codec = n.args[0].value if n.args and isinstance(n.args[0], ast.Constant) else None
+                    if not (isinstance(codec, str) and codec.lower().replace('-', '').replace('_', '') in ('latin1', 'iso88591')):   # latin1 decodes every byte
                         yield n, ['UnicodeDecodeError'], self.site(f, n, self.kind(n))
+                elif isinstance(n.func, ast.Name) and f.rd.is_local(n.func.id) and any(
+                        dd.value is not None and isinstance(dd.value, ast.Call) and dotted(dd.value.func) == 'getattr' and len(dd.value.args) >= 2
+                        and isinstance(dd.value.args[1], ast.Constant) and dd.value.args[1].value == 'decode'
+                        for nn in f.cfg.nodes for dd in f.rd.gen.get(nn, []) if dd.name == n.func.id):
+                    # decode = getattr(s, 'decode', None); decode(enc, err)   (touni)
+                    strict = not any(isinstance(a, ast.Constant) and a.value in ('ignore', 'replace') for a in n.args)
+                    if strict:
+                        yield n, ['UnicodeDecodeError'], self.site(f, n, '<bytes>.decode()')
                 elif d in ('json.loads', 'json_mod.loads', 'json.load'):
                     yield n, ['ValueError'], self.site(f, n, self.kind(n))
                 elif d in ('int', 'float') and n.args and not isinstance(n.args[0], ast.Constant):
@@ -385,6 +393,8 @@ class Escapes:
                 if cs:
                     for c in cs:
                         for (cname, origin) in self.escapes(c):
+                            if cname == 'UnicodeDecodeError' and origin.endswith('@' + c.fq) and self._codec_arg_is_latin1(c, n):
+                                continue   # decode(<codec parameter>) with 'latin1' passed at this call site decodes every byte
                             yield n, [cname], origin
                 else:
                     if d and not d.startswith(('self.', 'cls.')) and P.resolve_name(f.module, d.split('.')[0]) is None and d.split('.')[0] not in dir(builtins):
@@ -405,6 +415,21 @@ class Escapes:
                 base = dotted(n.value) or ''
                 if base.endswith('.options'):
                     yield n, ['KeyError'], self.site(f, n, self.kind(n))
+
+    def _codec_arg_is_latin1(self, callee, call):
+        """callee decodes with a codec taken from one of its parameters and this call passes the constant 'latin1' for it"""
+        params = callee.params
+        for x in walk_shallow(callee.node):
+            if isinstance(x, ast.Call) and x.args and isinstance(x.args[0], ast.Name) and x.args[0].id in params and \
+                    (call_attr(x) == 'decode' or (isinstance(x.func, ast.Name) and callee.rd.is_local(x.func.id))):
+                i = params.index(x.args[0].id)
+                val = call.args[i] if i < len(call.args) else None
+                for k in call.keywords:
+                    if k.arg == x.args[0].id:
+                        val = k.value
+                if isinstance(val, ast.Constant) and isinstance(val.value, str) and val.value.lower().replace('-', '') in ('latin1', 'iso88591'):
+                    return True
+        return False
 
     def resolve_self_attr_getters(self, f, attr):
         key = (f.owner_cls.fq if f.owner_cls else None, attr)
